@@ -155,6 +155,153 @@ Section ManagerProofs.
         apply (in_find_nodup _ _ _ NDt) in E2. rewrite Fd, F in E2. discriminate.
   Qed.
 
+  (** * text export, then import (whole files) *)
+
+  Definition wf_export_rec (kv : bytes * bytes) : bool := wf_export_key (fst kv).
+
+  Definition nonneg (kv : bytes * bytes) : bool := negb (commits (unpack O (snd kv)) <? 0)%Z.
+
+  (** the records an export file carries into the importer *)
+  Definition exported (m : amap) : amap :=
+    map (fun kv => (fst kv, exported_value O (snd kv))) (filter nonneg m).
+
+  Definition imports (l : amap) (d : db) : db := fold_left (fun d kv => imp_put O d (fst kv) (snd kv)) l d.
+
+  Lemma import_steps l : forall st,
+    r_sink (fold_left (import_step O) l st) = imports (exported l) (r_sink st) /\
+    r_count (fold_left (import_step O) l st) = (r_count st + length (exported l))%nat.
+  Proof.
+    induction l as [|[k v] l IH]; intro st; [cbn; split; [reflexivity|lia]|].
+    cbn [fold_left]. destruct (IH (import_step O st (k, v))) as [A B]. rewrite A, B.
+    unfold import_step, exported, nonneg. cbn [fst snd filter].
+    destruct (commits (unpack O v) <? 0)%Z; cbn [negb map imports fold_left fst snd r_sink r_count length]; split; try reflexivity; lia.
+  Qed.
+
+  Lemma keys_exported m : keys (exported m) = keys (filter nonneg m).
+  Proof. unfold exported, keys. rewrite map_map. reflexivity. Qed.
+
+  Lemma imports_meta l : forall d, meta (imports l d) = meta d.
+  Proof. induction l as [|kv l IH]; intro d; [reflexivity|]. cbn [imports fold_left]. fold (imports l (imp_put O d (fst kv) (snd kv))). now rewrite IH. Qed.
+
+  Lemma imports_notin l : forall d k, ~ In k (keys l) -> find k (data (imports l d)) = find k (data d).
+  Proof.
+    induction l as [|[k1 v1] l IH]; intros d k H; [reflexivity|].
+    cbn [imports fold_left fst snd]. fold (imports l (imp_put O d k1 v1)).
+    rewrite IH by (intro C; apply H; now right). apply import_put_other. intro C. apply H. now left.
+  Qed.
+
+  Lemma imports_in l : forall d k v, NoDup (keys l) -> In (k, v) l ->
+    exists s, find k (data (imports l d)) = Some s
+      /\ commits (unpack O s) = imported_commits (our_commits O d k) (commits (unpack O v))
+      /\ tick (unpack O s) = match find k (data d) with Some s0 => tick (unpack O s0) | None => 0%N end.
+  Proof.
+    induction l as [|[k1 v1] l IH]; intros d k v ND H; [contradiction|].
+    cbn [keys map] in ND. inversion ND as [|? ? Hn ND']; subst.
+    cbn [imports fold_left fst snd]. fold (imports l (imp_put O d k1 v1)).
+    destruct H as [H|H].
+    - injection H as -> ->. rewrite imports_notin by exact Hn. apply import_put_entry. exact dee_ok.
+    - assert (Nk : k <> k1) by (intro C; subst; apply Hn; change k1 with (fst (k1, v)); now apply in_map).
+      destruct (IH (imp_put O d k1 v1) k v ND' H) as (s & Fs & Cs & Ts). exists s. split; [exact Fs|].
+      unfold our_commits in *. rewrite import_put_other in Cs, Ts by exact Nk. now split.
+  Qed.
+
+  Lemma exported_value_commits v : commits (unpack O (exported_value O v)) = commits (unpack O v).
+  Proof.
+    unfold exported_value.
+    refine (proj1 (unpack_pack_commits O {| commits := commits (unpack O v); dee := d_of_commits O (commits (unpack O v)); tick := 0 |} dee_ok _)).
+    split; cbn [commits tick]; [apply unpack_ok_range | unfold ULONG_MAX; lia].
+  Qed.
+
+  Lemma um_export_file d : is_user_db d = true ->
+    um_export O d = Some (tsv_write s_descr_export (table_formatter O) (meta d) (query_all (data d)),
+                          tsv_write_count (table_formatter O) (query_all (data d))).
+  Proof. intro H. unfold um_export. now rewrite H. Qed.
+
+  (** Export of a well-formed dictionary whose keys survive the table format, then Import into
+      any user dictionary: metadata untouched; every non-deleted entry is imported under the
+      import rule with the importer's own tick kept (0 for a new entry); deleted entries
+      (negative count) are not exported; comments and "#@" lines change nothing. *)
+  Theorem export_import_file uid d d0 :
+    wf_db d -> forallb wf_export_rec (data d) = true -> is_user_db d = true ->
+    is_user_db (open_rw ver uid dict_name d0) = true ->
+    exists f n, um_export O d = Some (f, n) /\
+      let res := um_import uid dict_name f d0 in
+      snd res = Some (length (filter nonneg (data d))) /\
+      meta (fst res) = meta (open_rw ver uid dict_name d0) /\
+      forall k, match find k (data d) with
+                | Some v =>
+                    if (commits (unpack O v) <? 0)%Z then find k (data (fst res)) = find k (data d0)
+                    else exists s, find k (data (fst res)) = Some s
+                           /\ commits (unpack O s) = imported_commits (our_commits O d0 k) (commits (unpack O v))
+                           /\ tick (unpack O s) = match find k (data d0) with Some s0 => tick (unpack O s0) | None => 0%N end
+                | None => find k (data (fst res)) = find k (data d0)
+                end.
+  Proof.
+    intros (N1 & W1 & N2 & W2) We Hu Hu0.
+    eexists. eexists. split; [apply um_export_file; exact Hu|]. cbn zeta.
+    unfold Manager.um_import. rewrite Hu0. cbn [fst snd].
+    rewrite query_all_wf by exact W1.
+    unfold tsv_write, tsv_read.
+    change (description_line s_descr_export) with ((HASH :: x20 :: s_descr_export) ++ [LF]).
+    change (fun (d1 : db) (_ _ : bytes) => (d1, true)) with imp_sink_meta.
+    change (fun (d1 : db) (k v : bytes) => (imp_put O d1 k v, true)) with (imp_sink_put O).
+    rewrite (read_file_gen db (table_parser O) imp_sink_meta (imp_sink_put O) (table_formatter O) (import_step O)
+               (fun s k v => eq_refl) (HASH :: x20 :: s_descr_export) s_descr_export).
+    2: reflexivity.
+    2: vm_compute; repeat constructor.
+    2: reflexivity.
+    2: reflexivity.
+    2:{ apply forallb_forall. intros [k v] Hin. rewrite forallb_forall in W2. specialize (W2 _ Hin).
+        unfold wf_meta_rec in W2. cbn [fst snd] in *. apply andb_true_iff in W2. destruct W2 as [Wk Wv].
+        destruct (no_tab_lf_spec _ Wk) as [_ Lk]. destruct (wf_value_spec _ Wv) as (_ & Lv & _).
+        apply andb_true_iff. split; unfold no_lf; apply forallb_forall; intros b Hb;
+          [rewrite Forall_forall in Lk; now rewrite (Lk b Hb) | rewrite Forall_forall in Lv; now rewrite (Lv b Hb)]. }
+    2:{ apply Forall_forall. intros kv Hin. apply table_line_ok. rewrite forallb_forall in We. exact (We _ Hin). }
+    destruct (import_steps (data d) {| r_sink := open_rw ver uid dict_name d0; r_comment := true; r_count := 0 |}) as [A B].
+    rewrite A, B. cbn [r_sink r_count]. split; [|split].
+    - f_equal. unfold exported. now rewrite map_length.
+    - apply imports_meta.
+    - intro k.
+      assert (NDe : NoDup (keys (exported (data d)))) by (rewrite keys_exported; apply nodup_filter_keys, N1).
+      assert (D0 : forall k', find k' (data (open_rw ver uid dict_name d0)) = find k' (data d0)) by (intro; now rewrite data_open_rw).
+      destruct (find k (data d)) as [v|] eqn:F.
+      + destruct (commits (unpack O v) <? 0)%Z eqn:Ec.
+        * rewrite imports_notin, D0; [reflexivity|]. rewrite keys_exported. intro C. unfold keys in C. apply in_map_iff in C.
+          destruct C as ([k' v'] & E1 & E2). cbn [fst] in E1. subst k'. apply filter_In in E2. destruct E2 as [E2 E3].
+          apply (in_find_nodup _ _ _ N1) in E2. rewrite F in E2. injection E2 as ->. unfold nonneg in E3. cbn [snd] in E3. now rewrite Ec in E3.
+        * assert (Hin : In (k, exported_value O v) (exported (data d))).
+          { unfold exported. apply in_map_iff. exists (k, v). split; [reflexivity|]. apply filter_In.
+            split; [now apply find_some_in | unfold nonneg; cbn [snd]; now rewrite Ec]. }
+          destruct (imports_in _ (open_rw ver uid dict_name d0) k _ NDe Hin) as (s & Fs & Cs & Ts).
+          exists s. split; [exact Fs|]. unfold our_commits in *. rewrite D0 in Cs, Ts. rewrite exported_value_commits in Cs. now split.
+      + rewrite imports_notin, D0; [reflexivity|]. rewrite keys_exported. intro C. unfold keys in C. apply in_map_iff in C.
+        destruct C as ([k' v'] & E1 & E2). cbn [fst] in E1. subst k'. apply filter_In in E2. destruct E2 as [E2 _].
+        apply (in_find_nodup _ _ _ N1) in E2. rewrite F in E2. discriminate.
+  Qed.
+
+  (** into an empty dictionary: exactly the non-deleted entries, each with its commit count *)
+  Corollary export_import_into_empty uid d d0 :
+    wf_db d -> forallb wf_export_rec (data d) = true -> is_user_db d = true ->
+    is_user_db (open_rw ver uid dict_name d0) = true -> data d0 = [] ->
+    exists f n, um_export O d = Some (f, n) /\
+      forall k, match find k (data d) with
+                | Some v =>
+                    if (commits (unpack O v) <? 0)%Z then find k (data (fst (um_import uid dict_name f d0))) = None
+                    else exists s, find k (data (fst (um_import uid dict_name f d0))) = Some s
+                           /\ commits (unpack O s) = commits (unpack O v) /\ tick (unpack O s) = 0%N
+                | None => find k (data (fst (um_import uid dict_name f d0))) = None
+                end.
+  Proof.
+    intros W We Hu Hu0 He. destruct (export_import_file uid d d0 W We Hu Hu0) as (f & n & E & _ & _ & H).
+    exists f, n. split; [exact E|]. intro k. specialize (H k).
+    destruct (find k (data d)) as [v|]; [|now rewrite He in H].
+    destruct (commits (unpack O v) <? 0)%Z eqn:Ec; [now rewrite He in H|].
+    destruct H as (s & Fs & Cs & Ts). exists s. split; [exact Fs|]. unfold our_commits in Cs. rewrite He in Cs, Ts. cbn [find] in Cs, Ts.
+    split; [|exact Ts]. rewrite Cs. unfold imported_commits. apply Z.ltb_ge in Ec.
+    destruct (0 <? commits (unpack O v))%Z eqn:E1; [apply Z.ltb_lt in E1; lia|].
+    destruct (commits (unpack O v) <? 0)%Z eqn:E2; [apply Z.ltb_lt in E2; lia|]. apply Z.ltb_ge in E1. lia.
+  Qed.
+
   (** * histories: no operation of the sync family removes an entry or lowers a magnitude *)
 
   Definition mag_le (m1 m2 : amap) : Prop :=
